@@ -49,6 +49,16 @@ type procLayer struct {
 	envF func(name string) bool // which env names to snapshot
 	// onWrite is told which exec is delivering a chunk right now ("" = none)
 	onWrite func(key string)
+	// ident: goroutine id -> name of the execution it carries (stage or directly run task);
+	// written by the hooks in that goroutine, read by the exec handler in that goroutine
+	ident sync.Map
+}
+
+func (pl *procLayer) identity(gid int64) string {
+	if v, ok := pl.ident.Load(gid); ok {
+		return v.(string)
+	}
+	return ""
 }
 
 func newProcLayer(c *Ctl) *procLayer {
@@ -114,9 +124,16 @@ func (pl *procLayer) Handler(ctx context.Context, args []string) error {
 		info.Var = ""
 	}
 	info.ID = execID(owner, block, idx, info.Var)
-	info.Key = fmt.Sprintf("%s#%d", info.ID, pl.nextOcc(info.ID))
-	info.StartAt = c.Now()
 	info.GID = curGID()
+	// the key must not depend on which of several concurrently runnable goroutines got here
+	// first: occurrences are counted per execution (goroutine identity), not globally
+	if who := pl.identity(info.GID); who != "" && who != owner {
+		info.Key = info.ID + "@" + who
+	} else {
+		info.Key = info.ID
+	}
+	info.Key = fmt.Sprintf("%s#%d", info.Key, pl.nextOcc(info.Key))
+	info.StartAt = c.Now()
 	if dl, ok := ctx.Deadline(); ok {
 		info.HasTimeout = true
 		info.Deadline = dl.Sub(c.T0)
